@@ -231,7 +231,7 @@ func runECCase(c *ecCase) (vs []Violation) {
 			}
 			nb := append([]byte{}, b...)
 			for i := 1; i < len(nb) && i < 40; i++ {
-				nb[i] = byte(0xA5 ^ i)
+				nb[i] = ^nb[i] // every byte differs from what was there (a fixed pattern can coincide with a 1-byte payload)
 			}
 			os.WriteFile(f, nb, 0o644)
 		}
